@@ -38,7 +38,7 @@ CHECKS = {
  "C04": dict(category="exploration", design="DESIGN.md §3 O-S3, §5 C04",
    technique="exhaustive enumeration over every N and every pair against a gnomonic polygon-clipping S^3 Voronoi oracle folded over sign",
    text="For cube4D and randomQ and EVERY N in 4..40 (thorough 4..80, 100, 150, 272) every pair of rotations incl. index 0 and pairs adjacent only through the antipode is compared with Voronoi faces of {+-q} computed by planar Sutherland-Hodgman clipping in gnomonic projection (independent of Qhull); symmetry, diagonal, common pattern, distances and single-face borders are checked.",
-   note="Trusted: mc/oracles/s3.py. Border tolerance 5e-5 (code rounds cosines to 7 decimals); borders of two-face pairs are not compared (left open by the statement)."),
+   note="Trusted: mc/oracles/s3.py. Border tolerance 1e-6 (measured 3e-9 after fix F14); borders of two-face pairs are not compared (left open by the statement)."),
  "C05": dict(category="exploration", design="DESIGN.md §5 C05",
    technique="exhaustive enumeration of direction grids x radial grids, every cell and pair against closed forms on the O-S2 oracle",
    text="3 algorithms x every N in 4..45, 63, 64 (thorough every N 4..64 with 13 radial grids) x 8 radial grids with unequal increments, unsorted input and every syntax: every cell volume and every ordered pair's adjacency/border/distance is compared with the closed forms of the statement built on the independent spherical Voronoi oracle, plus the three sum rules.",
